@@ -33,9 +33,10 @@ EXTENDS Naturals, Sequences, FiniteSets, FiniteSetsExt, SequencesExt, TLC, Json,
 VARIABLES l,       \* judge: next line of the recorded file (0 in the machine)
           reg,     \* machine: which recorded registry (index into H.machine)
           cache,   \* machine: cache[t] = signature cached for argument tuple t, 0 = none
-          log      \* machine: history <<[a, t, r]>> of actions and results
+          log,     \* machine: history <<[a, t, r]>> of actions and results
+          live     \* machine: the signatures registered so far (late registration)
 
-vars == <<l, reg, cache, log>>
+vars == <<l, reg, cache, log, live>>
 
 TLog == ndJsonDeserialize(IOEnv.TRACE_FILE)
 H == TLog[1]
@@ -328,8 +329,8 @@ JudgeLine(e) ==
     [] e.kind = "dispatch" -> JudgeDispatch(e)
     [] OTHER -> Out([id |-> e.id, ok |-> FALSE, clause |-> "unknown_event_kind"])
 
-TraceInit == l = 1 /\ reg = 0 /\ cache = <<>> /\ log = <<>>
-TraceNext == l <= Len(TLog) /\ JudgeLine(TLog[l]) /\ l' = l + 1 /\ UNCHANGED <<reg, cache, log>>
+TraceInit == l = 1 /\ reg = 0 /\ cache = <<>> /\ log = <<>> /\ live = {}
+TraceNext == l <= Len(TLog) /\ JudgeLine(TLog[l]) /\ l' = l + 1 /\ UNCHANGED <<reg, cache, log, live>>
 TraceSpec == TraceInit /\ [][TraceNext]_vars
 
 -----------------------------------------------------------------------------
@@ -347,41 +348,62 @@ Res == [m \in DOMAIN Mach |->
           [t \in DOMAIN Mach[m].tuples |-> Resolve(Regs[Mach[m].reg].sigs, Mach[m].tuples[t])]]
 
 Tuples == DOMAIN Mach[reg].tuples
+AllSigs == DOMAIN Regs[Mach[reg].reg].sigs
+\* signatures of this machine that are registered LATE, i.e. by a Register action after some
+\* dispatches (Dispatcher.add must then forget the cached choices)
+Late == {Mach[reg].late[i] : i \in DOMAIN Mach[reg].late}
+\* resolution among the signatures registered so far
+ResLive(t) ==
+  LET S == Regs[Mach[reg].reg].sigs
+      M == Matching(SubTD, S, Mach[reg].tuples[t]) \cap live
+      MS == MostSpecificOf(SubTD, S, M)
+  IN IF M = {} THEN {0} ELSE IF MS # {} THEN MS ELSE MinimalOf(SubTD, S, M)
 
 MInit == /\ l = 0
          /\ reg \in DOMAIN Mach
          /\ cache = [t \in DOMAIN Mach[reg].tuples |-> 0]
          /\ log = <<>>
+         /\ live = AllSigs \ Late
 
 DispatchAct(t) ==
-  /\ \E r \in (IF cache[t] # 0 THEN {cache[t]} ELSE Res[reg][t]) :
+  /\ \E r \in (IF cache[t] # 0 THEN {cache[t]} ELSE ResLive(t)) :
        /\ cache' = [cache EXCEPT ![t] = r]
        /\ log' = Append(log, [a |-> "d", t |-> t, r |-> r])
+  /\ UNCHANGED <<l, reg, live>>
+
+\* PartialDispatcher.add(signature, rule) after some dispatches: the cached choices are dropped
+Register(s) ==
+  /\ s \in Late \ live
+  /\ live' = live \cup {s}
+  /\ cache' = [t \in Tuples |-> 0]
+  /\ log' = Append(log, [a |-> "r", t |-> s, r |-> 0])
   /\ UNCHANGED <<l, reg>>
 
 \* PartialDispatcher._cache.clear()
 ClearCache ==
   /\ cache' = [t \in Tuples |-> 0]
   /\ log' = Append(log, [a |-> "c", t |-> 0, r |-> 0])
-  /\ UNCHANGED <<l, reg>>
+  /\ UNCHANGED <<l, reg, live>>
 
 \* cold restart: dispatch cache, signature ordering and the subtype memo are all dropped
 Forget ==
   /\ cache' = [t \in Tuples |-> 0]
   /\ log' = Append(log, [a |-> "f", t |-> 0, r |-> 0])
-  /\ UNCHANGED <<l, reg>>
+  /\ UNCHANGED <<l, reg, live>>
 
 MNext == /\ Len(log) < MaxLen
          /\ \/ \E t \in Tuples : DispatchAct(t)
             \/ ClearCache
             \/ Forget
+            \/ \E s \in Late : Register(s)
 
 MSpec == MInit /\ [][MNext]_vars
 
-\* the result of Dispatch depends on the argument tuple only
+\* the result of Dispatch depends on the argument tuple (and on what is registered) only
 Deterministic ==
   \A i, j \in DOMAIN log :
-     (log[i].a = "d" /\ log[j].a = "d" /\ log[i].t = log[j].t) => log[i].r = log[j].r
+     (i < j /\ log[i].a = "d" /\ log[j].a = "d" /\ log[i].t = log[j].t
+      /\ ~\E k \in DOMAIN log : (k > i /\ k < j) /\ log[k].a = "r") => log[i].r = log[j].r
 
 Emit ==
   /\ (Len(log) = 0) => Out([m |-> reg, kind |-> "resolve", res |-> Res[reg]])
